@@ -2,8 +2,8 @@
 M1: the decidable input domains of C16 (`goLexemesOnly`) and C32 (`sharedLexemesOnly`) and the
 comparison of two token streams.  Core Lean only.
 
-`goLexemesOnly U src`: `src` consists of Go lexemes only, *as go/scanner sees it* — evaluated on the
-token stream of the `go` model with comments on.  Excluded are exactly
+`goLexemesOnly U comments noSemis src`: `src` consists of Go lexemes only, *as go/scanner sees it* —
+evaluated on the run of the `go` model in the compared mode.  Excluded are exactly
   * ILLEGAL tokens (includes `#`, `$`, `?`, `@`, NUL, BOM, bad UTF-8);
   * a number directly followed by a letter (XGo: unit / rational suffix), an imaginary literal
     directly followed by a letter or digit;
@@ -11,9 +11,12 @@ token stream of the `go` model with comments on.  Excluded are exactly
   * `-`, `=`, `<` directly followed by `>` (XGo: `->`, `=>`, `<>`);
   * `!` and `...` followed (after blanks, tabs, CRs) by a newline, EOF or a comment
     (XGo inserts a semicolon there by design: `x!`, `f(a...)` end an expression);
-  * an automatically inserted semicolon directly behind a comment (go/scanner ≥ 1.20 returns
-    `COMMENT, ";"` at the newline; the XGo scanner — like go/scanner ≤ 1.19 — `";", COMMENT` at the
-    comment; the XGo parser relies on this order).
+  * a comment that begins while a semicolon is pending (after an operand, `)`, `]`, `}`, `++`,
+    `--`, `return` …): there go/scanner ≥ 1.20 returns `COMMENT` and then `";"` at the newline,
+    while the XGo scanner — like go/scanner ≤ 1.19 — looks ahead (`findLineEnd`), returns `";"`
+    before the comment at the comment's offset (the XGo parser relies on this order), and, when
+    no line end follows, has read the comment twice, so a NUL / bad UTF-8 / BOM inside it is
+    reported twice.
 
 `sharedLexemesOnly U src`: evaluated on the token stream of the `xgo` model with comments on.
 Excluded: ILLEGAL tokens, keywords (TPL has none), `c"…"`/`py"…"`, `*` directly followed by `*`
@@ -36,31 +39,41 @@ def lineEndOrComment (src : Array UInt8) (i : Nat) : Bool :=
   decide (src.size ≤ j) || byteAt src j = 0x0A ||
     (byteAt src j = 0x2F && (byteAt src (j + 1) = 0x2F || byteAt src (j + 1) = 0x2A))
 
-/-- the rune that starts at offset i (EOF behind the end) -/
-def runeAt (src : Array UInt8) (i : Nat) : Nat :=
-  if i < src.size then (if byteAt src i < 0x80 then byteAt src i else (decodeRune src i).1) else eofCh
-
 def strC : List UInt8 := [0x63]
 def strCC : List UInt8 := [0x43]
 
-/-- local condition on one token of the go stream; `prevComment`: the previous token is a COMMENT -/
-def goTokOK (U : UCls) (src : Array UInt8) (prevComment : Bool) (t : Token) : Bool :=
+/-- local condition on one token returned by the go scanner -/
+def goTokOK (U : UCls) (src : Array UInt8) (t : Token) : Bool :=
   let next := runeAt src t.stop
   t.kind != Tokens.Go.ILLEGAL &&
   !((t.kind == Tokens.Go.INT || t.kind == Tokens.Go.FLOAT) && isLetter U next) &&
   !(t.kind == Tokens.Go.IMAG && (isLetter U next || isDigit U next)) &&
   !(t.kind == Tokens.Go.IDENT && (t.lit == strC || t.lit == strCC || t.lit == strPy) && next == 0x22) &&
   !((t.kind == Tokens.Go.SUB || t.kind == Tokens.Go.ASSIGN || t.kind == Tokens.Go.LSS) && next == 0x3E) &&
-  !((t.kind == Tokens.Go.NOT || t.kind == Tokens.Go.ELLIPSIS) && lineEndOrComment src t.stop) &&
-  !(prevComment && t.kind == Tokens.Go.SEMICOLON && t.lit == [0x0A])
+  !((t.kind == Tokens.Go.NOT || t.kind == Tokens.Go.ELLIPSIS) && lineEndOrComment src t.stop)
 
-def goToksOK (U : UCls) (src : Array UInt8) : Bool → List Token → Bool
-  | _, [] => true
-  | pc, t :: rest => goTokOK U src pc t && goToksOK U src (t.kind == Tokens.Go.COMMENT) rest
+/-- local condition on one pass through `Scan` of the go scanner: `st` is the state before it,
+`r` its result.  A comment (returned, or skipped when comments are off) must not begin while a
+semicolon is pending (`st.insertSemi`): there the XGo scanner looks ahead (`findLineEnd`),
+returns the `;` before the comment and reports read errors inside the comment twice. -/
+def goStepOK (U : UCls) (src : Array UInt8) (st : St) (r : St × Option Token) : Bool :=
+  match r.2 with
+  | none => !st.insertSemi
+  | some t => goTokOK U src t && !(t.kind == Tokens.Go.COMMENT && st.insertSemi)
 
-def goLexemesOnly (U : UCls) (src : Array UInt8) : Bool :=
-  let out := scan { d := .go, comments := true, noSemis := false, U := U } src
-  out.status == .done && goToksOK U src false out.toks
+/-- the go scanner's run, checked step by step (same fuel as `scanLoop`) -/
+def goRunOK (cfg : Cfg) (src : Array UInt8) : Nat → St → Bool
+  | 0, _ => false
+  | f + 1, st =>
+    let r := scanStep cfg src (src.size + 1) st
+    r.1.fail == .ok && goStepOK cfg.U src st r &&
+      match r.2 with
+      | none => goRunOK cfg src f r.1
+      | some t => t.kind == Tokens.Go.EOF || goRunOK cfg src f r.1
+
+/-- C16 domain, for the scanning mode that is compared -/
+def goLexemesOnly (U : UCls) (comments noSemis : Bool) (src : Array UInt8) : Bool :=
+  goRunOK { d := .go, comments := comments, noSemis := noSemis, U := U } src (scanFuel src) (initSt src)
 
 /-- C32: local condition on one token of the xgo stream -/
 def sharedTokOK (src : Array UInt8) (t : Token) : Bool :=
@@ -93,10 +106,11 @@ def sameToks (d1 d2 : Dialect) : List Token → List Token → Bool
   | a :: as, b :: bs => sameTok d1 d2 a b && sameToks d1 d2 as bs
   | _, _ => false
 
-/-- C16 conclusion on two outputs: same tokens (offset, kind, literal — including inserted
+/-- C16 conclusion on two outputs: same tokens (offset, end, numeric kind — the two token
+packages use the same numbers, `C16_token_tables_embed` — and literal, including inserted
 semicolons), same error-handler calls (offset and message, in order), both finished -/
 def agree16 (x g : ScanOut) : Bool :=
-  x.status == .done && g.status == .done && sameToks .xgo .go x.toks g.toks && x.errs == g.errs
+  x.status == .done && g.status == .done && x.toks == g.toks && x.errs == g.errs
 
 /-- C32 conclusion: same token boundaries (offsets), kinds (by spelling), literals, inserted
 semicolons (errors are not part of C32) -/
